@@ -124,7 +124,7 @@ CHECKS = {
         "level_note": "trusted: kani-compiler, CBMC, CaDiCaL, the reference queue in harness/mem.rs; <= 4 retained records, payloads <= 3 bytes, concrete positions",
         "filters": ["c05_", "c18_iso_q", "c13_one"],
         "quick": {"harnesses": [("real", "c05_obs*_q*"), ("real", "c05_ring_wrap_q"), ("real", "c05_big_q*"), ("real", "c05_range_sym_q*"), ("real", "c18_iso_q_00[0-3]"), ("real", "c05_log_q*"), ("real", "c05_log2_q_00[0178]"), ("real", "c13_one_q_00[3-5]")], "jobs": 14, "timeout": 1200},
-        "thorough": {"harnesses": [("real", "c05_obs*"), ("real", "c05_ring_wrap_q"), ("real", "c05_big_q*"), ("real", "c05_range_sym_*"), ("real", "c18_iso_q_0*"), ("real", "c05_log_*"), ("real", "c13_one_q_0*")], "jobs": 16, "timeout": 2400},
+        "thorough": {"harnesses": [("real", "c05_obs*"), ("real", "c05_ring_wrap_q"), ("real", "c05_big_q*"), ("real", "c05_range_sym_*"), ("real", "c18_iso_q_0*"), ("real", "c05_log_*"), ("real", "c13_one_q_0*")], "jobs": 10, "timeout": 2400},
         "rule": ("case = one operation script (appends of 0..3 symbolic bytes at next / +1 / +2 / rejected position, truncations at 8 "
                  "relative targets) or one symbolic-bounds range query on a constructed state; lock step with the reference; "
                  "non-trivial = at least two accepted appends; counted from CBMC's symex log"),
@@ -153,7 +153,7 @@ CHECKS = {
         "level_note": "trusted: kani-compiler (atomics of Arc treated sequentially), CBMC, CaDiCaL, the ghost map in harness/mem.rs; hook FileNumber::for_verif",
         "filters": ["c06_"],
         "quick": {"harnesses": [("real", "c06_files*_q*"), ("real", "c06_tracker_q*"), ("real", "c06_gc_q*"), ("real", "c06_gc0_q*"), ("real", "c06_gc2_q*"), ("real", "c06_gc2b_q*"), ("real", "c06_gcroll_q*")], "jobs": 14, "timeout": 1200},
-        "thorough": {"harnesses": [("real", "c06_files*"), ("real", "c06_tracker_q*"), ("real", "c06_gc*")], "jobs": 16, "timeout": 2400},
+        "thorough": {"harnesses": [("real", "c06_files*"), ("real", "c06_tracker_q*"), ("real", "c06_gc*")], "jobs": 10, "timeout": 2400},
         "rule": ("case = one script over [append same file, append after roll-over, truncate first / middle / last] (x2 queues in the "
                  "files2 family); after each step every file handle is compared with the ghost 'some retained record lives in it'"),
         "samples": ["c06_files_q_004: scripts 28..34 of 5^3, three file handles, one queue", "c06_files2_q_003: scripts 21..27 of 8^2, two queues",
@@ -356,7 +356,7 @@ CHECKS = {
         "level_note": "trusted: kani-compiler, CBMC, CaDiCaL; the 60-line association-list stand-in for HashMap (src/lib.rs verif_map, guarded); operations are only issued to queues that exist (an Err(MissingQueue) value makes symex fork on a garbage reference, DESIGN B17)",
         "filters": ["c18_", "c06_gc2"],
         "quick": {"harnesses": [("real", "c18_iso*_q*"), ("real", "c06_gc2_q*")], "jobs": 14, "timeout": 1200},
-        "thorough": {"harnesses": [("real", "c18_iso*"), ("real", "c06_gc2*")], "jobs": 16, "timeout": 2400},
+        "thorough": {"harnesses": [("real", "c18_iso*"), ("real", "c06_gc2*")], "jobs": 10, "timeout": 2400},
         "rule": "case = one script over [create a, delete a, append a, truncate a, create b, delete b, append b, truncate b] (base-8 digits); after each step both queues are observed; counted from the symex log",
         "samples": ["c18_iso_q_002: scripts 16..23 of 8^2 (append a followed by each of the eight operations)", "c18_iso3_q_003: scripts 152..159 of 8^3"],
         "functions": ["mem::queues::MemQueues::{create_queue,delete_queue,append_record,truncate,range,next_position,contains_queue,list_queues,size,ack_position}",
@@ -378,7 +378,7 @@ CHECKS = {
         "level_note": "trusted: kani-compiler, CBMC, CaDiCaL; I/O leaf stubs; association-list stand-in for HashMap; hooks MultiRecordLog::verif_new / RollingWriter::verif_new / Directory::verif_new",
         "filters": ["c13_"],
         "quick": {"harnesses": [("real", "c13_one_q*"), ("real", "c13_two_q*")], "jobs": 14, "timeout": 1500},
-        "thorough": {"harnesses": [("real", "c13_one_q*"), ("real", "c13_two_*")], "jobs": 16, "timeout": 3000},
+        "thorough": {"harnesses": [("real", "c13_one_q*"), ("real", "c13_two_*")], "jobs": 8, "timeout": 3000},
         "rule": ("non-trivial = the script contains a rejected / no-op call or makes GC reclaim a file, or >= 2 effective calls. case = one script of 1 or 2 calls over [create a, append a None / future / last (no-op) / older (Past) / empty batch / batch of 2, truncate a first / future, "
                  "create bq, append bq]; after every call the cursor, the outcome and all observables are compared with the model; counted from the symex log"),
         "samples": ["c13_one_q_004: script 4 of 11: append(Some(last-1)) -> Past, cursor unchanged", "c13_one_q_005: empty batch -> Ok(None, 0 bytes)",
@@ -404,7 +404,7 @@ CHECKS = {
         "level_note": "trusted: as C13; the model is the oracle for all policies (C13's runs are the Always(Flush) leg)",
         "filters": ["c14_", "c13_one"],
         "quick": {"harnesses": [("real", "c14_pol*_q*"), ("real", "c13_one_q_00[0-2]")], "jobs": 14, "timeout": 1500},
-        "thorough": {"harnesses": [("real", "c14_*"), ("real", "c13_one_q_0*")], "jobs": 16, "timeout": 3000},
+        "thorough": {"harnesses": [("real", "c14_*"), ("real", "c13_one_q_0*")], "jobs": 10, "timeout": 3000},
         "rule": "case = (persist policy, one call); non-trivial = the call is a rejected / no-op call or makes GC reclaim a file; counted from the symex log",
         "samples": ["c14_pol1_q_001: DoNothing, append(None) on queue a", "c14_pol2_q_007: Always(FlushAndFsync), truncate(first) with GC"],
         "functions": ["persist_policy::{PersistPolicy -> PersistState, PersistState::should_persist, update_persisted}", "multi_record_log::MultiRecordLog::{persist_on_policy, persist, create_queue, append_records, truncate, delete_queue}",
